@@ -1,3 +1,157 @@
-//! Verification hooks for the transports (feature `verif-hooks` only).
+//! Verification hooks for the send side of the transports (feature `verif-hooks` only).
+//!
+//! Builds a real [`TransportsSender`] from caller-specified IP bind configurations (bound
+//! through [`IpTransports::bind`], so sorting and default-route selection are the production
+//! code), relay transports without an actor, and caller-supplied custom senders.
+
+use std::{
+    io,
+    net::{IpAddr, SocketAddr},
+    num::NonZeroUsize,
+    pin::Pin,
+    sync::Arc,
+    task::{Context, Poll},
+};
+
+use ipnet::{Ipv4Net, Ipv6Net};
 
 pub use super::relay::verif::VerifRelayTransport;
+use super::{
+    CustomSender, FourTuple, Sender, Transmit, TransportsSender,
+    ip::{Config, IpTransports},
+};
+use crate::{metrics::EndpointMetrics, socket::Socket};
+
+/// Caller-facing description of one IP socket to bind (mirrors `ip::Config`).
+#[derive(Debug, Clone, Copy, PartialEq, Eq)]
+pub struct VerifIpConfig {
+    /// Address to bind, including port and (for IPv6) scope id.
+    pub addr: SocketAddr,
+    /// Prefix length of the attached subnet.
+    pub prefix_len: u8,
+    /// Whether a bind failure is fatal.
+    pub is_required: bool,
+    /// Whether this socket is the family's default route.
+    pub is_default: bool,
+}
+
+impl VerifIpConfig {
+    fn to_config(self) -> Option<Config> {
+        Some(match self.addr {
+            SocketAddr::V4(a) => Config::V4 {
+                ip_net: Ipv4Net::new(*a.ip(), self.prefix_len).ok()?,
+                port: a.port(),
+                is_required: self.is_required,
+                is_default: self.is_default,
+            },
+            SocketAddr::V6(a) => Config::V6 {
+                ip_net: Ipv6Net::new(*a.ip(), self.prefix_len).ok()?,
+                scope_id: a.scope_id(),
+                port: a.port(),
+                is_required: self.is_required,
+                is_default: self.is_default,
+            },
+        })
+    }
+
+    /// `ip::Config::is_valid_send_addr`; `None` if the prefix length is invalid.
+    pub fn is_valid_send_addr(self, src: Option<IpAddr>, dst: SocketAddr) -> Option<bool> {
+        Some(self.to_config()?.is_valid_send_addr(src, dst))
+    }
+
+    /// `ip::Config::is_valid_default_addr`; `None` if the prefix length is invalid.
+    pub fn is_valid_default_addr(self, src: Option<IpAddr>, dst: SocketAddr) -> Option<bool> {
+        Some(self.to_config()?.is_valid_default_addr(src, dst))
+    }
+}
+
+/// A real [`TransportsSender`] over harness-controlled transports.
+#[derive(Debug)]
+pub struct VerifTransportsSender {
+    sender: TransportsSender,
+    ip: IpTransports,
+    metrics: EndpointMetrics,
+}
+
+impl VerifTransportsSender {
+    /// Binds the IP sockets with [`IpTransports::bind`] and assembles the sender.  Must be
+    /// called inside a tokio runtime with IO enabled.
+    pub fn new(
+        ip: &[VerifIpConfig],
+        relays: &[&VerifRelayTransport],
+        custom: Vec<Arc<dyn CustomSender>>,
+    ) -> io::Result<Self> {
+        let metrics = EndpointMetrics::default();
+        let mut configs = Vec::with_capacity(ip.len());
+        for c in ip {
+            configs.push(
+                c.to_config()
+                    .ok_or_else(|| io::Error::other("invalid prefix length"))?,
+            );
+        }
+        let ip = IpTransports::bind(configs.into_iter(), &metrics)?;
+        let sender = TransportsSender {
+            ip: ip.create_sender(),
+            relay: relays.iter().map(|r| r.create_sender()).collect(),
+            custom,
+            max_transmit_segments: NonZeroUsize::MIN,
+        };
+        Ok(Self {
+            sender,
+            ip,
+            metrics,
+        })
+    }
+
+    /// `(configuration, actual local address)` of every bound IP socket, in the order the
+    /// transports keep them (IPv4 then IPv6, each sorted by the production code).
+    pub fn ip_sockets(&self) -> Vec<(VerifIpConfig, SocketAddr)> {
+        use n0_watcher::Watcher as _;
+        self.ip
+            .iter()
+            .map(|t| {
+                let config = VerifIpConfig {
+                    addr: t.bind_addr(),
+                    prefix_len: t.verif_config().prefix_len(),
+                    is_required: t.verif_config().is_required(),
+                    is_default: t.verif_config().is_default(),
+                };
+                (config, t.local_addr_watch().get())
+            })
+            .collect()
+    }
+
+    /// Bytes counted as sent over IPv4 and IPv6 sockets (`send_ipv4`, `send_ipv6` metrics).
+    pub fn ip_bytes_sent(&self) -> (u64, u64) {
+        (
+            self.metrics.socket.send_ipv4.get(),
+            self.metrics.socket.send_ipv6.get(),
+        )
+    }
+
+    /// Calls [`TransportsSender::poll_send`] with a transmit made of `contents` and
+    /// `segment_size`.
+    pub fn poll_send(
+        &mut self,
+        cx: &mut Context,
+        network_path: &FourTuple,
+        contents: &[u8],
+        segment_size: Option<usize>,
+    ) -> Poll<io::Result<()>> {
+        let transmit = Transmit {
+            ecn: None,
+            contents,
+            segment_size,
+        };
+        Pin::new(&mut self.sender).poll_send(cx, network_path, &transmit)
+    }
+
+    /// Builds the QUIC-facing [`Sender`] (the `noq::UdpSender` iroh hands to noq) over a clone
+    /// of this transports sender and the given socket state.
+    pub(crate) fn quic_sender(&self, sock: Arc<Socket>) -> Pin<Box<dyn noq::UdpSender>> {
+        Box::pin(Sender {
+            sock,
+            sender: self.sender.clone(),
+        })
+    }
+}
